@@ -102,9 +102,13 @@ def run_shard(desc):
             rs = recs[k:k + len(vs)]
             k += len(vs)
             b = rs[0]
-            if b is None or b.get("p") != "ok" or b.get("ast") != t:
+            if b is None or b.get("p") != "ok":
                 part["counts"]["base_not_as_documented"] += 1
                 continue
+            if b.get("ast") != t:
+                # a base that parses to another tree than the generated one is C02's business, but the relation checked here
+                # holds for whatever the base parses to: its layout variants must still agree with it
+                part["counts"]["base_not_as_documented"] += 1
             part["counts"]["bases_gen"] += 1
             judge(part, vs[0][2], b, vs[1:], rs[1:], profile)
     else:
@@ -117,7 +121,8 @@ def run_shard(desc):
             # prefix+infix, prefix+postfix) and as words: the relation is the same, whatever is registered
             table = ref.BUILTINS.copy()
             pool = [("%%", ("postfix", "infix")), ("±", ("prefix", "infix")), ("~", ("prefix", "postfix")), ("pct", ("postfix",)), ("neg", ("prefix",)), ("~>", ("infix",)), ("upto", ("infix",)),
-                    ("!!", ("postfix", "infix")), ("§", ("prefix", "postfix", "infix")), ("twice", ("prefix", "infix")), ("++", ("infix",)), ("-", ("postfix",)), ("not", ("postfix",))]
+                    ("!!", ("postfix", "infix")), ("§", ("prefix", "postfix", "infix")), ("twice", ("prefix", "infix")), ("++", ("infix",)), ("-", ("postfix",)), ("not", ("postfix",)),
+                    ("包含", ("infix",)), ("不等于", ("infix", "prefix")), ("aé", ("postfix",)), ("ünless", ("infix",)), ("≠≠", ("infix",))]
             mine = rnd.sample(pool, rnd.randint(2, 5))
             for nm, roles in mine:
                 for role in roles:
